@@ -42,7 +42,7 @@ CONSTANTS
 VARIABLES
     tbox,       \* topic mailbox: FIFO of requests; the first CAP are in the box, the rest are parked senders
     sbox,       \* [Subs -> FIFO of requests]
-    tclosed,    \* never TRUE here (the topic actor lives as long as a handle exists); kept for symmetry
+    tdeleted,   \* the topic was deleted (its actor lives on as long as a handle exists)
     sclosed,    \* [Subs -> BOOLEAN]: the subscription actor has exited
     tbusy,      \* "idle" | "publishing"
     tpub,       \* the process whose publish is being handled (or "none")
@@ -64,7 +64,7 @@ VARIABLES
     res,        \* [Procs -> outcome]
     got         \* [Procs -> number of messages a consumer received]
 
-vars == <<tbox, sbox, tclosed, sclosed, tbusy, tpub, attached, exists, sbusy, sdeleter, deleted, backlog, leased,
+vars == <<tbox, sbox, tdeleted, sclosed, tbusy, tpub, attached, exists, sbusy, sdeleter, deleted, backlog, leased,
           expiries, permit, waiters, gen, delsig, pc, sig, sgen, res, got>>
 
 Topic == "T"
@@ -100,7 +100,7 @@ NotifyWaiters(s, w, sg) ==
 (***************************************************************************)
 Init ==
     /\ tbox = <<>> /\ sbox = [s \in Subs |-> <<>>]
-    /\ tclosed = FALSE /\ sclosed = [s \in Subs |-> FALSE]
+    /\ tdeleted = FALSE /\ sclosed = [s \in Subs |-> FALSE]
     /\ tbusy = "idle" /\ tpub = "none"
     /\ attached = InitAttached /\ exists = InitAttached
     /\ sbusy = [s \in Subs |-> "idle"] /\ sdeleter = [s \in Subs |-> "none"]
@@ -134,7 +134,7 @@ StartSubReq(p) ==
        ELSE /\ sbox' = [sbox EXCEPT ![Target[p]] = Append(@, Req(Kind[p], p, 0))]
             /\ pc' = [pc EXCEPT ![p] = "wait"]
             /\ UNCHANGED res
-    /\ UNCHANGED <<tbox, tclosed, sclosed, tbusy, tpub, attached, exists, sbusy, sdeleter, deleted, backlog, leased,
+    /\ UNCHANGED <<tbox, tdeleted, sclosed, tbusy, tpub, attached, exists, sbusy, sdeleter, deleted, backlog, leased,
                    expiries, permit, waiters, gen, delsig, sig, sgen, got>>
 
 \* Requests addressed to the topic.
@@ -142,7 +142,7 @@ StartTopicReq(p) ==
     /\ pc[p] = "start" /\ Kind[p] \in {"publish", "list", "tdelete"}
     /\ tbox' = Append(tbox, Req(Kind[p], p, 0))
     /\ pc' = [pc EXCEPT ![p] = "wait"]
-    /\ UNCHANGED <<sbox, tclosed, sclosed, tbusy, tpub, attached, exists, sbusy, sdeleter, deleted, backlog, leased,
+    /\ UNCHANGED <<sbox, tdeleted, sclosed, tbusy, tpub, attached, exists, sbusy, sdeleter, deleted, backlog, leased,
                    expiries, permit, waiters, gen, delsig, sig, sgen, res, got>>
 
 \* CreateSubscription: manager insert, then the attach request to the topic.
@@ -155,7 +155,7 @@ StartCreate(p) ==
             /\ tbox' = Append(tbox, Req("attach", p, Target[p]))
             /\ pc' = [pc EXCEPT ![p] = "wait"]
             /\ UNCHANGED res
-    /\ UNCHANGED <<sbox, tclosed, sclosed, tbusy, tpub, attached, sbusy, sdeleter, deleted, backlog, leased,
+    /\ UNCHANGED <<sbox, tdeleted, sclosed, tbusy, tpub, attached, sbusy, sdeleter, deleted, backlog, leased,
                    expiries, permit, waiters, gen, delsig, sig, sgen, got>>
 
 (***************************************************************************)
@@ -178,7 +178,7 @@ TopicTurn ==
                  /\ LET a == Answer(r.from, "OK", pc, res) IN pc' = a[1] /\ res' = a[2]
                  /\ UNCHANGED <<sbox, tbusy, tpub, attached, sbusy, sdeleter, deleted, delsig, waiters, sig, exists, backlog, leased>>
             [] r.kind = "tdelete" ->
-                 /\ attached' = {}
+                 /\ attached' = {} /\ tdeleted' = TRUE
                  /\ LET a == Answer(r.from, "OK", pc, res) IN pc' = a[1] /\ res' = a[2]
                  /\ UNCHANGED <<sbox, tbusy, tpub, sbusy, sdeleter, deleted, delsig, waiters, sig, exists, backlog, leased>>
             [] r.kind = "remove" ->
@@ -195,7 +195,8 @@ TopicTurn ==
                  ELSE /\ sbox' = [s \in Subs |-> IF s \in attached THEN Append(sbox[s], Req("post", Topic, 0)) ELSE sbox[s]]
                       /\ tbusy' = "publishing" /\ tpub' = r.from
                       /\ UNCHANGED <<attached, sbusy, sdeleter, deleted, delsig, waiters, sig, exists, backlog, leased, pc, res>>
-    /\ UNCHANGED <<tclosed, sclosed, expiries, permit, gen, sgen, got>>
+    /\ (Head(tbox).kind # "tdelete" => UNCHANGED tdeleted)
+    /\ UNCHANGED <<sclosed, expiries, permit, gen, sgen, got>>
 
 \* All posts of the current publish are in their mailboxes (or consumed): answer the publisher.
 PostParked(s) == \E i \in 1..Len(sbox[s]) : sbox[s][i].kind = "post" /\ ~InBox(sbox[s], i)
@@ -204,7 +205,7 @@ TopicPublishDone ==
     /\ \A s \in Subs : ~PostParked(s)
     /\ tbusy' = "idle" /\ tpub' = "none"
     /\ LET a == Answer(tpub, "OK", pc, res) IN pc' = a[1] /\ res' = a[2]
-    /\ UNCHANGED <<tbox, sbox, tclosed, sclosed, attached, exists, sbusy, sdeleter, deleted, backlog, leased,
+    /\ UNCHANGED <<tbox, sbox, tdeleted, sclosed, attached, exists, sbusy, sdeleter, deleted, backlog, leased,
                    expiries, permit, waiters, gen, delsig, sig, sgen, got>>
 
 (***************************************************************************)
@@ -266,7 +267,7 @@ SubTurn(s) ==
        \/ (sbusy[s] = "delwait" /\ DeleteDrainsMailbox)     \* repaired: keeps serving (no-ops) while waiting
     /\ sbox' = [sbox EXCEPT ![s] = Tail(@)]
     /\ SubHandle(s, Head(sbox[s]))
-    /\ UNCHANGED <<tclosed, sclosed, tbusy, tpub, attached, exists, expiries, gen, delsig, sgen>>
+    /\ UNCHANGED <<tdeleted, sclosed, tbusy, tpub, attached, exists, expiries, gen, delsig, sgen>>
 
 \* The topic answered the removal: manager removal, deletion signal, clear, answer the deleter.
 SubDeleteResume(s) ==
@@ -279,7 +280,7 @@ SubDeleteResume(s) ==
     /\ backlog' = [backlog EXCEPT ![s] = 0] /\ leased' = [leased EXCEPT ![s] = 0]
     /\ LET a == Answer(sdeleter[s], "OK", pc, res) IN pc' = a[1] /\ res' = a[2]
     /\ sdeleter' = [sdeleter EXCEPT ![s] = "none"]
-    /\ UNCHANGED <<tbox, sbox, tclosed, sclosed, tbusy, tpub, attached, deleted, expiries, permit, sgen, got>>
+    /\ UNCHANGED <<tbox, sbox, tdeleted, sclosed, tbusy, tpub, attached, deleted, expiries, permit, sgen, got>>
 
 \* The actor task ends: the mailbox closes, queued requests are dropped (their callers see
 \* Closed), parked senders fail.
@@ -291,7 +292,7 @@ SubExit(s) ==
                 IF HasReq(sbox[s], p) /\ pc[p] = "wait"
                 THEN (IF Kind[p] \in {"bpull", "stream"} THEN "pulled" ELSE "done") ELSE pc[p]]
     /\ res' = [p \in Procs |-> IF HasReq(sbox[s], p) /\ pc[p] = "wait" THEN "CLOSED" ELSE res[p]]
-    /\ UNCHANGED <<tbox, tclosed, tbusy, tpub, attached, exists, sbusy, sdeleter, deleted, backlog, leased,
+    /\ UNCHANGED <<tbox, tdeleted, tbusy, tpub, attached, exists, sbusy, sdeleter, deleted, backlog, leased,
                    expiries, permit, waiters, gen, delsig, sig, sgen, got>>
 
 \* An outstanding delivery expires (the actor is in its select loop, not inside a handler).
@@ -301,7 +302,7 @@ SubExpire(s) ==
     /\ leased' = [leased EXCEPT ![s] = @ - 1]
     /\ backlog' = [backlog EXCEPT ![s] = @ + 1]
     /\ LET n == NotifyOne(s, waiters, permit, sig) IN waiters' = n[1] /\ permit' = n[2] /\ sig' = n[3]
-    /\ UNCHANGED <<tbox, sbox, tclosed, sclosed, tbusy, tpub, attached, exists, sbusy, sdeleter, deleted,
+    /\ UNCHANGED <<tbox, sbox, tdeleted, sclosed, tbusy, tpub, attached, exists, sbusy, sdeleter, deleted,
                    gen, delsig, pc, sgen, res, got>>
 
 (***************************************************************************)
@@ -322,7 +323,7 @@ ConsLookup(p) ==
     /\ IF ~SubLookupOk(p)
        THEN pc' = [pc EXCEPT ![p] = "done"] /\ res' = [res EXCEPT ![p] = "NOT_FOUND"]
        ELSE pc' = [pc EXCEPT ![p] = "loop"] /\ UNCHANGED res
-    /\ UNCHANGED <<tbox, sbox, tclosed, sclosed, tbusy, tpub, attached, exists, sbusy, sdeleter, deleted, backlog, leased,
+    /\ UNCHANGED <<tbox, sbox, tdeleted, sclosed, tbusy, tpub, attached, exists, sbusy, sdeleter, deleted, backlog, leased,
                    expiries, permit, waiters, gen, delsig, sig, sgen, got>>
 
 \* `let signal = subscription.messages_available();` then send the pull.
@@ -335,7 +336,7 @@ ConsSignalAndSend(p) ==
           THEN /\ pc' = [pc EXCEPT ![p] = "pulled"] /\ res' = [res EXCEPT ![p] = "CLOSED"] /\ UNCHANGED sbox
           ELSE /\ sbox' = [sbox EXCEPT ![s] = Append(@, Req("cpull", p, 0))]
                /\ pc' = [pc EXCEPT ![p] = "wait"] /\ UNCHANGED res
-    /\ UNCHANGED <<tbox, tclosed, sclosed, tbusy, tpub, attached, exists, sbusy, sdeleter, deleted, backlog, leased,
+    /\ UNCHANGED <<tbox, tdeleted, sclosed, tbusy, tpub, attached, exists, sbusy, sdeleter, deleted, backlog, leased,
                    expiries, permit, waiters, gen, delsig, got>>
 
 \* The pull was answered.
@@ -356,7 +357,7 @@ ConsAfterPull(p) ==
             /\ sig' = [sig EXCEPT ![p] = IF SignalCreatedAfterPull THEN "init" ELSE @]
             /\ sgen' = [sgen EXCEPT ![p] = IF SignalCreatedAfterPull THEN gen[s] ELSE @]
             /\ UNCHANGED res
-    /\ UNCHANGED <<tbox, sbox, tclosed, sclosed, tbusy, tpub, attached, exists, sbusy, sdeleter, deleted, backlog, leased,
+    /\ UNCHANGED <<tbox, sbox, tdeleted, sclosed, tbusy, tpub, attached, exists, sbusy, sdeleter, deleted, backlog, leased,
                    expiries, permit, waiters, gen, delsig, got>>
 
 SigReady(p) ==
@@ -385,7 +386,7 @@ ConsAwait(p) ==
           /\ sig' = [sig EXCEPT ![p] = "waiting"]
           /\ waiters' = [waiters EXCEPT ![s] = Append(@, p)]
           /\ UNCHANGED <<permit, pc, res>>
-    /\ UNCHANGED <<tbox, sbox, tclosed, sclosed, tbusy, tpub, attached, exists, sbusy, sdeleter, deleted, backlog, leased,
+    /\ UNCHANGED <<tbox, sbox, tdeleted, sclosed, tbusy, tpub, attached, exists, sbusy, sdeleter, deleted, backlog, leased,
                    expiries, gen, delsig, sgen, got>>
 
 \* A blocked unary pull returns empty when its own wait limit fires (the only timer that may
@@ -394,7 +395,7 @@ PullTimeout(p) ==
     /\ pc[p] = "await" /\ Kind[p] = "bpull" /\ sig[p] = "waiting"
     /\ pc' = [pc EXCEPT ![p] = "done"] /\ res' = [res EXCEPT ![p] = "TIMEOUT_EMPTY"]
     /\ LET d == DropSig(p) IN waiters' = d[1] /\ permit' = d[2] /\ sig' = d[3]
-    /\ UNCHANGED <<tbox, sbox, tclosed, sclosed, tbusy, tpub, attached, exists, sbusy, sdeleter, deleted, backlog, leased,
+    /\ UNCHANGED <<tbox, sbox, tdeleted, sclosed, tbusy, tpub, attached, exists, sbusy, sdeleter, deleted, backlog, leased,
                    expiries, gen, delsig, sgen, got>>
 
 (***************************************************************************)
@@ -419,7 +420,7 @@ Cancel(p) ==
        IN IF parkedPull
           THEN waiters' = n[1] /\ permit' = n[2] /\ sig' = n[3]
           ELSE waiters' = d[1] /\ permit' = d[2] /\ sig' = d[3]
-    /\ UNCHANGED <<tclosed, sclosed, tbusy, tpub, attached, exists, sbusy, sdeleter, deleted, backlog, leased,
+    /\ UNCHANGED <<tdeleted, sclosed, tbusy, tpub, attached, exists, sbusy, sdeleter, deleted, backlog, leased,
                    expiries, gen, delsig, sgen, got>>
 
 (***************************************************************************)
@@ -480,12 +481,10 @@ C12_Released ==
         \A p \in Procs : (IsConsumer(p) /\ Target[p] = s /\ pc[p] # "start") => Finished(p)
 C12_Status ==
     \A p \in Procs : (Kind[p] = "stream" /\ pc[p] = "done" /\ delsig[Target[p]]) => res[p] = "NOT_FOUND"
-C12_BlockedPullErrors ==
-    \A p \in Procs : (Kind[p] = "bpull" /\ pc[p] = "done" /\ res[p] = "TIMEOUT_EMPTY") => ~PullWatchesDeleted
 
 \* C16: at rest, every subscription that exists is attached, and no actor is stuck in a handler.
 C16_Attached ==
-    Stable => \A s \in exists : (~deleted[s] => s \in attached)
+    (Stable /\ ~tdeleted) => \A s \in exists : (~deleted[s] => s \in attached)
 
 TypeOK ==
     /\ \A s \in Subs : backlog[s] >= 0 /\ leased[s] >= 0
